@@ -2,6 +2,7 @@
    Every numeric field is a Z; bytes are given as list Z. *)
 From Coq Require Import List ZArith NArith Bool.
 From NSQV Require Import model.Judge model.Num model.Heap model.Deadline.
+From NSQV Require judge.CoreJudge.
 Import ListNotations.
 Open Scope Z_scope.
 
@@ -249,6 +250,9 @@ Fixpoint run_chan (max_msg : Z) (c : chan) (before : cobs) (steps : list (cop * 
 
 (* ------------------------------------------------------------------ cases *)
 Inductive case :=
+  (* a recorded trace of a real nsqd, judged by the shared core judge with ledger check 4
+     (a deferred message is not delivered before a scan whose clock reached its release time) *)
+| CoreTrace (c : CoreJudge.case)
   (* real protocol.ByteToBase10: res = -1 for an error, the value otherwise (a uint64 as Z) *)
 | B10 (p : list Z) (res : Z)
   (* the same for a batch of strings *)
@@ -308,6 +312,7 @@ Definition b10_spec (p : list Z) (res : Z) : bool :=
 
 Definition judge (c : case) : N :=
   match c with
+  | CoreTrace cc => CoreJudge.judge_for 4 cc
   | B10 p res => verdict (b10_agree p res) (b10_spec p res)
   | B10s l =>
       verdict (forallb (fun '(p, res) => b10_agree p res) l) (forallb (fun '(p, res) => b10_spec p res) l)
